@@ -28,6 +28,7 @@ var repoSets = map[string]genSet{
 	"goldmaster": {Name: "goldmaster", Files: []string{tls + "goldmaster.tl", tls + "goldmaster2.tl", tls + "goldmaster3.tl"}, Args: []string{"--tl2WhiteList=*", "--generateByteVersions=ch_proxy.,ab.,memcache.", "--generateRandomCode"}},
 	"schema":     {Name: "schema", Files: []string{tls + "schema.tl"}, Args: []string{"--tl2WhiteList=*", "--generateByteVersions=*", "--generateRandomCode", "--split-internal"}},
 	"sink":       {Name: "sink", Files: []string{"/verif/schemas/sink.tl"}, Args: []string{"--tl2WhiteList=*", "--generateByteVersions=*", "--generateRandomCode"}},
+	"casestl2":   {Name: "casestl2", Files: []string{tls + "cases.tl2"}, Args: []string{"--tl2WhiteList=*", "--generateByteVersions=cases_bytes.", "--generateRandomCode", "--checkLengthSanity=false"}},
 	"casesnotl2": {Name: "casesnotl2", Files: []string{tls + "cases.tl"}, Args: []string{"--generateByteVersions=cases_bytes.", "--generateRandomCode"}},
 }
 
@@ -221,6 +222,9 @@ func genTest(o gOpts) func(id, tier string, seed int64, replay string) ([]unit, 
 		nrand := o.QRand
 		if tier == "thorough" {
 			nrand = o.TRand
+		}
+		if v := os.Getenv("VERIF_SETS"); v != "" && replay == "" { // exploration aid: VERIF_SETS=a,b overrides the sets, no random ones
+			sets, nrand = strings.Split(v, ","), 0
 		}
 		var chosen []genSet
 		if replay != "" && len(sets) == 1 && strings.HasPrefix(sets[0], "rnd") {
